@@ -655,4 +655,44 @@ theorem run_append_err (cfg : Config) : ∀ (us1 : List DUnit) (s : VState) (us2
             rw [hpl] at h; simp only at h ⊢
             exact ih _ us2 v h h1 h2
 
+/-! ### exact characterisations used by the C01 step theorems -/
+
+theorem checkLastNext_ok (s : VState) (x : Unit) : checkLastNext s = .ok x ↔
+    (s.nextOff = none ∨ s.nextOff = some 0 ∨
+          ∃ last, s.lastPI = some last ∧ s.nextOff = some (s.pos - last)) := by
+  unfold checkLastNext
+  cases hn : s.nextOff with
+  | none => simp [pure_ok]
+  | some n =>
+    simp only
+    split
+    · rename_i h0; subst h0; simp [pure_ok]
+    · rename_i h0
+      simp only [bind_ok, getOrCrash_ok, guardRej_ok]
+      constructor
+      · rintro ⟨last, hl, hg⟩
+        refine Or.inr (Or.inr ⟨last, hl, ?_⟩)
+        simp at hg; rw [hg]
+      · rintro (h | h | ⟨last, hl, h⟩)
+        · cases h
+        · simp at h; exact absurd h h0
+        · refine ⟨last, hl, ?_⟩
+          simp at h; simp [h]
+
+theorem levelStep_ok (lvl : Option Matcher) (name : String) :
+    (∃ l, levelStep lvl name = .ok l) ↔ (∀ lm, lvl = some lm → (lm.matchSymbol name).isSome = true) := by
+  unfold levelStep
+  cases lvl with
+  | none => simp [pure_ok]
+  | some lm =>
+    simp only [bind_ok, matchOrRej_ok, pure_ok]
+    constructor
+    · rintro ⟨l, g, hg, _⟩ lm' h; cases h; simp [hg]
+    · intro h
+      have := h lm rfl
+      cases hm : lm.matchSymbol name with
+      | none => rw [hm] at this; cases this
+      | some g => exact ⟨some g, g, rfl, rfl⟩
+
+
 end VC2.Proofs.Stream
